@@ -13,6 +13,23 @@ pub enum Fe {
     Local(Box<LocalAssetCache<MemSource>>),
 }
 
+/// Reloader threads seen through the verif yield points: thread id ↦ "is inside `select.ready()`".
+static HR_THREADS: std::sync::Mutex<BTreeMap<u64, bool>> = std::sync::Mutex::new(BTreeMap::new());
+
+fn tid() -> u64 {
+    // ThreadId has no stable integer accessor: parse its Debug form `ThreadId(n)`
+    let s = format!("{:?}", std::thread::current().id());
+    s.trim_start_matches("ThreadId(").trim_end_matches(')').parse().unwrap_or(0)
+}
+
+fn yield_hook(tag: &'static str) {
+    match tag {
+        "hr-thread-before-ready" => { HR_THREADS.lock().unwrap_or_else(|e| e.into_inner()).insert(tid(), true); }
+        "hr-thread-after-ready" => { HR_THREADS.lock().unwrap_or_else(|e| e.into_inner()).insert(tid(), false); }
+        _ => {}
+    }
+}
+
 pub struct WorldExec {
     pub src: MemSource,
     pub fe: Fe,
@@ -22,6 +39,14 @@ pub struct WorldExec {
     next_h: usize,
     watchers: BTreeMap<String, ReloadWatcher<'static>>,
     pub universe_ids: Vec<String>,
+    /// the reloader thread of this cache (as seen by the yield hook)
+    hr_thread: Option<u64>,
+    leak: bool,
+    static_mode: bool,
+    /// set when a reload pass loaded an asset that was not cached before the pass: from then on the cached values
+    /// depend on the (unspecified) order in which the assets of that pass were reloaded — see known finding F-C05d —
+    /// and engines that compare values with the model stop the case here
+    pub unspecified: bool,
 }
 
 pub const ALL_TYPES: &[&str] = &["S0", "S1", "S2", "N0", "I", "M00", "M01", "M10", "M11", "M20", "M21", "M30", "M31", "M40", "M41", "M50", "M51",
@@ -49,6 +74,9 @@ impl WorldExec {
     pub fn new(frontend: &str, mode: &str) -> WorldExec {
         quiet_panics();
         *loader_faults() = (0, BTreeMap::new());
+        { let mut l = ledger(); l.created.clear(); l.dropped.clear(); }
+        assets_manager::verif::set_yield_hook(Some(yield_hook));
+        let known: Vec<u64> = HR_THREADS.lock().unwrap_or_else(|e| e.into_inner()).keys().copied().collect();
         let (local, via_any) = match frontend { "shared" => (false, false), "any" => (false, true), "local" => (true, false), _ => (true, true) };
         let src = MemSource::new(mode == "hot" || mode == "nohot-ctor");
         let (fe, has_reloader) = if local {
@@ -58,7 +86,31 @@ impl WorldExec {
         } else {
             (Fe::Shared(Box::new(AssetCache::with_source(src.clone()))), mode == "hot")
         };
-        WorldExec { src, fe, via_any, has_reloader, handles: BTreeMap::new(), next_h: 0, watchers: BTreeMap::new(), universe_ids: crate::eng_cache::IDS.iter().map(|s| s.to_string()).chain(["".to_string(), "d".to_string(), "d.e".to_string()]).collect() }
+        // the cache's reloader thread shows up at its first `select.ready()`
+        let mut hr_thread = None;
+        if has_reloader {
+            let t0 = std::time::Instant::now();
+            while hr_thread.is_none() && t0.elapsed().as_secs() < 10 {
+                hr_thread = HR_THREADS.lock().unwrap_or_else(|e| e.into_inner()).keys().copied().find(|k| !known.contains(k));
+                std::thread::yield_now();
+            }
+        }
+        WorldExec { src, fe, via_any, has_reloader, handles: BTreeMap::new(), next_h: 0, watchers: BTreeMap::new(), hr_thread, leak: false, static_mode: false, unspecified: false, universe_ids: crate::eng_cache::IDS.iter().map(|s| s.to_string()).chain(["".to_string(), "d".to_string(), "d.e".to_string()]).collect() }
+    }
+
+    /// Quiescence barrier without sleeping: nothing is pending in either channel and the reloader
+    /// thread is blocked inside `select.ready()`.
+    pub fn sync(&self) -> bool {
+        let (Some(t), Fe::Shared(c), Some(tx)) = (self.hr_thread, &self.fe, self.src.sender()) else { return true };
+        let t0 = std::time::Instant::now();
+        let mut stable = 0;
+        while t0.elapsed().as_secs() < 20 {
+            let quiet = tx.verif_pending() == 0 && c.verif_msgs_pending() == Some(0)
+                && HR_THREADS.lock().unwrap_or_else(|e| e.into_inner()).get(&t).copied() == Some(true);
+            if quiet { stable += 1; if stable >= 2 { return true; } } else { stable = 0; }
+            std::thread::yield_now();
+        }
+        false
     }
 
     fn any(&self) -> AnyCache<'_> {
@@ -105,6 +157,18 @@ impl WorldExec {
     pub fn op(&mut self, line: &str) -> String {
         let w: Vec<&str> = line.split_whitespace().collect();
         if w.is_empty() { return "bad-op".into(); }
+        let is_pass = self.has_reloader && (w[0] == "reload" || w[0] == "enhance" || (w[0] == "notify" && self.static_mode));
+        if is_pass {
+            let before: Vec<(String, String)> = self.snapshot().into_keys().collect();
+            let out = self.op_inner(line);
+            if self.snapshot().keys().any(|k| !before.contains(k)) { self.unspecified = true; }
+            return out;
+        }
+        self.op_inner(line)
+    }
+
+    fn op_inner(&mut self, line: &str) -> String {
+        let w: Vec<&str> = line.split_whitespace().collect();
         let s = |i: usize| -> String { w.get(i).map(|x| unhexs(x)).unwrap_or_default() };
         if w[0].starts_with("src.") && w.len() >= 2 { let id = s(1); self.note_id(&id); }
         match w[0] {
@@ -233,18 +297,37 @@ impl WorldExec {
                     None => "no-reloader".into(),
                     Some(tx) => {
                         if evs.len() == 1 { let _ = tx.send(evs.pop().unwrap()); } else { let _ = tx.send_multiple(evs); }
-                        "ok".into()
+                        if self.sync() { "ok".into() } else { "sync-timeout".into() }
                     }
                 }
             }
             "reload" => {
-                // barrier: every event sent so far has been taken by the reloader thread
-                if let Some(tx) = self.src.sender() {
-                    let t0 = std::time::Instant::now();
-                    while tx.verif_pending() > 0 && t0.elapsed().as_secs() < 10 { std::thread::yield_now(); }
-                }
+                self.sync();
                 if let Fe::Shared(c) = &self.fe { c.hot_reload(); }
-                "ok".into()
+                if self.sync() { "ok".into() } else { "sync-timeout".into() }
+            }
+            "enhance" => {
+                // `enhance_hot_reloading` needs a `'static` cache: this one is leaked (harness only)
+                self.sync();
+                if let Fe::Shared(c) = &self.fe {
+                    let c: &'static AssetCache<MemSource> = unsafe { &*(&**c as *const AssetCache<MemSource>) };
+                    c.enhance_hot_reloading();
+                    self.leak = true;
+                    self.static_mode = true;
+                }
+                if self.sync() { "ok".into() } else { "sync-timeout".into() }
+            }
+            // C13: the ownership ledger of tracked values (created by loaders / passed to get_or_insert; dropped)
+            "ledger" => { let l = ledger(); format!("c={} d={}", l.created.len(), l.dropped.len()) }
+            // C13: view the entry stored as type T at type R through the untyped handle
+            "view" if w.len() == 4 => {
+                let (t, r, id) = (w[1], w[2], s(3));
+                let c = self.any();
+                let out: Option<String> = with_storable!(t, T => c.get_cached::<T>(&id).map(|h| {
+                    let u = h.as_untyped();
+                    with_storable!(r, R => format!("ref={} is={} guard={}", u.downcast_ref::<R>().is_some(), u.is::<R>(), u.read().downcast::<R>().is_ok()), else "bad-op".to_string())
+                }), else Some("bad-op".to_string()));
+                out.unwrap_or_else(|| "absent".into())
             }
             "rid" if w.len() == 3 => {
                 let id = s(2);
@@ -256,7 +339,7 @@ impl WorldExec {
                 let r: Option<bool> = with_storable!(w[1], T => c.get_cached::<T>(&id).map(|h| h.reloaded_global()), else None);
                 match r { Some(b) => b.to_string(), None => "none".into() }
             }
-            "watch.new" if w.len() == 4 => {
+            "rw.new" if w.len() == 4 => {
                 let id = s(3);
                 let c = self.any();
                 let wt: Option<ReloadWatcher<'_>> = with_storable!(w[2], T => c.get_cached::<T>(&id).map(|h| h.reload_watcher()), else None);
@@ -266,7 +349,7 @@ impl WorldExec {
                     None => "none".into(),
                 }
             }
-            "watch.poll" if w.len() == 2 => match self.watchers.get_mut(w[1]) { Some(wt) => wt.reloaded().to_string(), None => "none".into() },
+            "rw.poll" if w.len() == 2 => match self.watchers.get_mut(w[1]) { Some(wt) => wt.reloaded().to_string(), None => "none".into() },
             _ => "bad-op".into(),
         }
     }
@@ -275,8 +358,27 @@ impl WorldExec {
     /// reuse it for a new entry, which must get a new number); numbering continues.
     fn rekey(&mut self) {}
 
+    /// number of live cache entries whose value is tracked by the ownership ledger
+    pub fn live_tracked(&self) -> usize {
+        self.snapshot().keys().filter(|(t, _)| t.starts_with('S') || t.starts_with('M') || t == "N0").count()
+    }
+
     pub fn rid_of(&self, ty: &str, id: &str) -> Option<usize> {
         let c = self.any();
         with_storable!(ty, T => c.get_cached::<T>(id).map(|h| h.last_reload_id().verif_raw()), else None)
+    }
+}
+
+impl Drop for WorldExec {
+    fn drop(&mut self) {
+        self.watchers.clear();
+        if self.leak {
+            // the reloader thread keeps a `'static` reference: the cache must outlive it
+            let fe = std::mem::replace(&mut self.fe, Fe::Local(Box::new(LocalAssetCache::with_source(MemSource::new(false)))));
+            std::mem::forget(fe);
+        } else {
+            // let the event channel disconnect so that the reloader thread can stop after the cache is gone
+            self.src.lock().sender = None;
+        }
     }
 }
